@@ -104,6 +104,19 @@ func (d *denum) resolveCall(call *ast.CallExpr, env map[types.Object]ast.Expr) *
 	if f := calleeOf(d.info, call); f != nil {
 		fn = f
 		sel, _ = fun.(*ast.SelectorExpr)
+	} else if inner, ok := fun.(*ast.CallExpr); ok && d.callVars != nil && d.callVars[inner] != nil {
+		// the function called is what an (already enumerated) selector call returned on this path: h.responder()(w, r)
+		if b, has := env[d.callVars[inner]]; has {
+			switch v := ast.Unparen(b).(type) {
+			case *ast.FuncLit:
+				return d.checkTarget(&inlTarget{ftype: v.Type, body: v.Body, args: call.Args})
+			case *ast.Ident:
+				fn, _ = d.info.Uses[v].(*types.Func)
+			case *ast.SelectorExpr:
+				fn, _ = d.info.Uses[v.Sel].(*types.Func)
+				sel = v
+			}
+		}
 	} else if id, ok := fun.(*ast.Ident); ok {
 		switch v := d.deref(id, env).(type) {
 		case *ast.FuncLit:
@@ -1338,6 +1351,25 @@ func (d *denum) constElems(x ast.Expr, in []dstate) []ast.Expr {
 	if id, ok := e.(*ast.Ident); ok {
 		if init, ok := d.inits[d.info.ObjectOf(id)]; ok {
 			e = init
+		}
+	}
+	// a list built by a constructor of the package from its (variadic) constant arguments, in order:
+	// newSchemeList("http", "https", …)
+	if call, ok := ast.Unparen(e).(*ast.CallExpr); ok && len(call.Args) > 0 && !call.Ellipsis.IsValid() {
+		if fn := calleeOf(d.info, call); fn != nil && fn.Pkg() == d.pkg {
+			sig, _ := fn.Type().(*types.Signature)
+			if sig != nil && sig.Variadic() && sig.Params().Len() == 1 && sig.Results().Len() == 1 {
+				if _, isSlice := sig.Results().At(0).Type().Underlying().(*types.Slice); isSlice {
+					var out []ast.Expr
+					for _, a := range call.Args {
+						if tv, ok := d.info.Types[a]; !ok || tv.Value == nil {
+							return nil
+						}
+						out = append(out, a)
+					}
+					return out
+				}
+			}
 		}
 	}
 	cl, ok := ast.Unparen(e).(*ast.CompositeLit)
